@@ -29,7 +29,8 @@ class C01(Prop):
             'samples as permuted supersets, weights none / ones / random / integers / non-uniform with mean exactly 1, duplicated '
             'samples), batches of 1..12 unit tensors incl. tensors with zero probability, marginalise on/off, zero filtering on/off; '
             'per case one invariance probe (station permutation, batch split, sample permutation, duplicate-vs-weight, filter on/off, '
-            'drop a data type); non-trivial = at least two stations in total')
+            'drop a data type); 8 (thorough 80) inversions requested through the Inversion front end (random sampling, with and without the '
+            'double-couple constraint), whose reported values are compared on the tensors it kept; non-trivial = at least two stations in total')
 
     def setup(self):
         import_mtfit()
@@ -55,6 +56,13 @@ class C01(Prop):
                    'return_zero': rng.random() < 0.4,
                    'probe': rng.choice(['perm_stations', 'batch', 'perm_samples', 'dup_weight', 'filter', 'drop_type', 'loc_order']),
                    'probe_seed': rng.randrange(1 << 30)}
+        # the same value reported by an inversion requested through the front end (Inversion object, random sampling)
+        for i in range(8 if tier == 'quick' else 80):
+            ev = dg.gen_event(rng, want_loc=False)
+            if not ev['types']:
+                continue
+            yield {'kind': 'frontend', 'event': ev, 'mts': [], 'marginalise': True, 'return_zero': True, 'probe': 'none',
+                   'probe_seed': rng.randrange(1 << 30), 'dc': rng.random() < 0.4, 'samples': rng.choice([40, 120])}
 
     # ------------------------------------------------------------------ implementation
     def _task(self, ev, mts, marginalise, return_zero):
@@ -123,7 +131,45 @@ class C01(Prop):
             return self._task(ev, mts, True, False), None, 'zero filtering'
         return None, None, None
 
+    def _frontend(self, case):
+        """run a random-sampling inversion through MTfit.inversion.Inversion and return the sampled tensors with the values it reports"""
+        import contextlib
+        import io
+        import os
+        import shutil
+        import tempfile
+        np, inv = self.np, self.inv
+        data, _loc = dg.to_mtfit(case['event'], np)
+        data['UID'] = 'verif'
+        cwd = os.getcwd()
+        tmp = tempfile.mkdtemp(prefix='c01fe_')
+        sink = io.StringIO()
+        try:
+            os.chdir(tmp)
+            np.random.seed(case['probe_seed'] % (2 ** 32))
+            with contextlib.redirect_stdout(sink), contextlib.redirect_stderr(sink):
+                I = inv.Inversion(data, algorithm='iterate', parallel=False, max_samples=case['samples'], number_samples=case['samples'] // 2,
+                                  phy_mem=1, convert=False, dc=case['dc'], inversion_options=sorted(case['event']['types']))
+                I.forward()
+                res, _txt = I.algorithm.output(normalise=False, convert=False)
+        finally:
+            os.chdir(cwd)
+            shutil.rmtree(tmp, ignore_errors=True)
+        if isinstance(res.get('probability'), list) and not len(res['probability']):
+            return [], [], int(res.get('total_number_samples', 0))
+        mts = np.asarray(res['moment_tensor_space'], dtype=float)
+        ln = np.asarray(res['ln_pdf'], dtype=float).flatten()
+        return [[float(v) for v in mts[:, j]] for j in range(mts.shape[1])], [float(v) for v in ln], int(res['total_number_samples'])
+
     def impl(self, case):
+        if case['kind'] == 'frontend':
+            mts, ln, tried = self._frontend(case)
+            # the tensors the front end kept (non-zero probability) become the batch of this case
+            case['mts'] = mts if mts else [unit6(__import__('random').Random(case['probe_seed']))]
+            out = self._task(case['event'], case['mts'], True, True)
+            out['base'] = self._task(case['event'], case['mts'], True, True)
+            out['frontend'] = {'ln': ln, 'kept': len(mts), 'tried': tried}
+            return out
         out = self._task(case['event'], case['mts'], case['marginalise'], case['return_zero'])
         out['base'] = self._task(case['event'], case['mts'], True, True)
         pr, sel, what = self._probe(case)
@@ -305,6 +351,24 @@ class C01(Prop):
                         break
         if impl['n'] != len(mts):
             out.append(('n', 'n = %d for a batch of %d' % (impl['n'], len(mts)), None))
+        if 'frontend' in impl and impl['frontend']['kept']:
+            fe = impl['frontend']
+            if len(fe['ln']) != len(got) or not all(lp_close(a, b) for a, b in zip(fe['ln'], got)):
+                bad = next((j for j, (a, b) in enumerate(zip(fe['ln'], got)) if not lp_close(a, b)), -1)
+                out.append(('frontend', 'the inversion front end reports %r for a sampled tensor whose log-probability is %r' %
+                            (fe['ln'][bad] if bad >= 0 else len(fe['ln']), got[bad] if bad >= 0 else len(got)), None))
+            if case['dc']:
+                np = self.np
+                r2 = 1 / math.sqrt(2)
+                for v in mts:
+                    w = np.linalg.eigvalsh(np.array([[v[0], r2 * v[3], r2 * v[4]], [r2 * v[3], v[1], r2 * v[5]], [r2 * v[4], r2 * v[5], v[2]]]))
+                    if max(abs(w[0] + r2), abs(w[1]), abs(w[2] - r2)) > 1e-7:
+                        out.append(('frontend', 'a double-couple constrained inversion returned a tensor with eigenvalues %r' % [float(x) for x in w], None))
+                        break
+            if any(v == NEG_INF for v in fe['ln']):
+                out.append(('frontend', 'the inversion front end kept a zero-probability sample', None))
+            if fe['tried'] < case['samples']:
+                out.append(('frontend', 'the front end reports %d tried samples, %d were requested' % (fe['tried'], case['samples']), None))
         return out
 
     def nontrivial(self, case, impl):
@@ -312,6 +376,8 @@ class C01(Prop):
 
     def branch(self, case, impl):
         ev = case['event']
+        if case['kind'] == 'frontend':
+            return 'frontend/%s/%s' % ('dc' if case['dc'] else 'mt', 'kept' if isinstance(impl, dict) and impl.get('frontend', {}).get('kept') else 'none-kept')
         kinds = sorted({'pp' if ('prob' in k.lower()) else 'pol' if 'polarity' in k.lower() else 'ar' for k in ev['types']})
         nloc = len(ev['loc']['samples']) if ev['loc'] else 0
         w = 'w' if ev['weights'] is not None else 'nw'
